@@ -52,6 +52,42 @@ type c08World struct {
 	codeBase int                 // where in c08ClientCodes / c08ServerCodes this world starts
 	n4xx     int
 	n5xx     int
+	// for the clause "a request carries a report that was there to be read": the controller whose threads are
+	// running now, the ready reports that existed when it was created, and per thread the length of its log when
+	// the thread's previous request returned
+	cur      *vhook.Controller
+	initial  map[string]bool
+	postMark map[int]int
+}
+
+// bind makes ctl the controller whose log decides whether a report existed (see post).
+func (w *c08World) bind(ctl *vhook.Controller) {
+	w.cur, w.postMark, w.initial = ctl, map[int]int{}, map[string]bool{}
+	ents, _ := os.ReadDir(filepath.Join(w.dir, "local"))
+	for _, e := range ents {
+		w.initial[filepath.Join(w.dir, "local", e.Name())] = true
+	}
+}
+
+// existedSince reports whether path existed at some moment between log position from and now, going by the
+// successful creations, renames and removals in the current controller's log.
+func (w *c08World) existedSince(path string, from int) bool {
+	exists := w.initial[path]
+	for i, c := range w.cur.Log {
+		if i >= from && exists {
+			return true
+		}
+		if c.Err != "" {
+			continue
+		}
+		switch {
+		case c.Op == "OpenFile" && c.Arg == path && c.Arg2 != "0x0", c.Op == "WriteFile" && c.Arg == path, c.Op == "Rename" && c.Arg2 == path:
+			exists = true
+		case c.Op == "Remove" && c.Arg == path, c.Op == "Rename" && c.Arg == path:
+			exists = false
+		}
+	}
+	return exists
 }
 
 // Status codes standing for "client error" and "server error".
@@ -142,6 +178,15 @@ func (w *c08World) post(thread int, url string, body []byte) (int, error) {
 	valid := json.Unmarshal(body, &rep) == nil && rep.Week == week
 	if w.strict && !valid && (outcome == "200" || outcome == "neterr-after") {
 		outcome = "400"
+	}
+	// (3) what is sent was there to be read: the uploader turns to a report when it has finished the previous one,
+	// so local/<week>.json existed at some moment since this uploader's previous request returned (or since it
+	// started). A report that another uploader discarded before that (after a client error) cannot be sent.
+	if w.cur != nil {
+		if path := filepath.Join(w.dir, "local", week+".json"); !w.existedSince(path, w.postMark[thread]) && w.viol == "" {
+			w.viol = fmt.Sprintf("uploader run %d sends a report for week %s, but local/%s.json has not existed since that uploader finished its previous request: the report had been removed (discarded after a client error, or delivered) before the uploader turned to it", w.runOf[thread], week, week)
+		}
+		defer func() { w.postMark[thread] = len(w.cur.Log) }()
 	}
 	// (2) a report that was acknowledged and recorded as uploaded is never sent again
 	if _, err := os.Stat(filepath.Join(w.dir, "upload", week+".json")); err == nil {
@@ -285,6 +330,7 @@ func TestVerifC08Deliver(t *testing.T) {
 			ctl := vhook.New()
 			ctl.KeepLog = true
 			ctl.PostFn = w.post
+			w.bind(ctl)
 			ctl.RandFn = func(b []byte) { // every uploader draws its own X; drive them apart on purpose
 				x += 0.0625
 				if x >= 0.5 {
@@ -958,6 +1004,7 @@ func c08RunScn(t *rapid.T, base string, s *c08Scn, replay []int, killAt map[int]
 		ctl := vhook.New()
 		ctl.KeepLog = true
 		ctl.PostFn = w.post
+		w.bind(ctl)
 		ctl.RandFn = func(b []byte) {
 			x += 0.0625
 			if x >= 0.5 {
